@@ -47,6 +47,10 @@ type ConnCfg struct {
 	DirectSet  int  `json:"dset,omitempty"`   // 0: SetDirectIO not called, 1: SetDirectIO(true), 2: SetDirectIO(false) (unbuffered writes)
 	BufferSize int  `json:"buf,omitempty"`    // Options.ClientBufferSize
 	SetBuf     int  `json:"setbuf,omitempty"` // Conn.SetBufferSize after dial (0 = not called)
+	// OptOrder: order in which the client options are applied after the dial (the outcome must not
+	// depend on it). 0: pipelining, then direct I/O; 1: SetDirectIO(true) first, then pipelining, then
+	// the final direct-I/O setting; 2: SetDirectIO(false) first, then pipelining, then the final setting.
+	OptOrder int `json:"oo,omitempty"`
 }
 
 // Op is one step of a client goroutine.
